@@ -53,9 +53,12 @@ def handleLzma2W (a : Args) : String :=
       let base :=
         if a.nat? "check" == some 1 then
           let chunks := toChunks o.propsByte f0 evs
-          let ok := match Lzma2.checkChunks o.propsByte chunks (Lzma2.initW dict preset.toArray o.propsByte) with
+          -- the hypotheses of `lzma2_fast_roundtrip_partial`: `checkChunks` accepts the framing of the events and
+          -- it denotes the input; `encodeChunks` reproduces the model writer's bytes
+          let w0 := Lzma2.initW dict preset.toArray o.propsByte
+          let ok := (match Lzma2.checkChunks o.propsByte chunks w0 with
             | some den => den == all
-            | none => false
+            | none => false) && (Lzma2.encodeChunks o.propsByte chunks w0 [] == some bytes)
           base ++ s!" check={if ok then 1 else 0}"
         else base
       if a.nat? "chunks" == some 1 then base ++ " " ++ ",".intercalate (evs.map showEv) else base
